@@ -193,7 +193,10 @@ def run(ctx):
     explore_stage_faults(ctx, c03.LeafStage("toast depth 2", 2), [2, 3], ["workers-last", "random", "eager-timeout"], 1 if q else 5, all_items_fail=True)
     explore_stage_faults(ctx, c03.TransformStage(3), [2], ["random", "main-first"], 1 if q else 3, all_items_fail=True)
     wconfs = [(fam[0], c01.ROOT, False), (fam[2], c01.ROOT, False), (fam[1], (1, 0, 0), False), (c01.with_kids(l1, 2), c01.ROOT, True)]
-    explore_walk_faults(ctx, 2, wconfs if not q else wconfs[:3], [2] if q else [2, 3], pols if not q else pols[:3], 1 if q else 4)
+    # "late-timeout": time-outs fire only when nothing else can run, as on a real machine where they take a second and
+    # everything else microseconds - the schedule under which work continues after a failure
+    wpols = (pols + ["late-timeout"]) if not q else ["random", "late-timeout", "starve-feeder"]
+    explore_walk_faults(ctx, 2, wconfs if not q else wconfs[:3], [2] if q else [2, 3], wpols, 1 if q else 4)
     l1full = c01.with_kids(l1, 3)
     explore_walk_many_faults(ctx, 2, [(c01.with_kids(l1, 2), c01.ROOT, True), (fam[1], c01.ROOT, False)], [2, 3], ["random", "workers-last", "eager-timeout"], 1 if q else 4)
     explore_walk_many_faults(ctx, 3, [(l1full, c01.ROOT, True)], [2], ["random", "main-first"], 1 if q else 3)
